@@ -357,6 +357,144 @@ func c02R1(c *Ctx, p *Prog) {
 		long, _ := p.pkgConstInt("chess.Long")
 		kingOK = c.Check(guard && sides[short] && sides[long] && len(sides) == 2, rule, "king", bo.Pos(), "a king move clears exactly Castle(STM,Short)|Castle(STM,Long) (guarded by moved piece == King: %v, sides: %d)", guard, len(sides)) || kingOK
 	})
+	// rights lost as a function of a square: a table lookup T[m.From()] / T[m.To()] or a helper h(m.From()) / h(m.To())
+	accessor := func(v ssa.Value) string {
+		v = stripConv(v)
+		switch {
+		case isCallValueTo(v, "move.(Move).From"):
+			return "from"
+		case isCallValueTo(v, "move.(Move).To"):
+			return "to"
+		}
+		return ""
+	}
+	var squareMap func(v ssa.Value) (map[int64]int64, string, bool)
+	squareMap = func(v ssa.Value) (map[int64]int64, string, bool) {
+		v = stripConv(v)
+		// table lookup
+		if l, ok := v.(*ssa.UnOp); ok && l.Op == token.MUL {
+			if ia, ok := l.X.(*ssa.IndexAddr); ok {
+				if g, ok := ia.X.(*ssa.Global); ok {
+					if acc := accessor(ia.Index); acc != "" {
+						if tab, ok := p.globalArrayInts(g); ok {
+							return tab, acc, true
+						}
+					}
+				}
+			}
+		}
+		// helper of one square
+		if call, ok := v.(*ssa.Call); ok {
+			h := call.Call.StaticCallee()
+			if h != nil && isOwn(h) && h.Blocks != nil && len(call.Call.Args) >= 1 {
+				argIx, acc := -1, ""
+				for i, a := range call.Call.Args {
+					if ac := accessor(a); ac != "" {
+						argIx, acc = i, ac
+					}
+				}
+				if argIx < 0 || argIx >= len(h.Params) {
+					return nil, "", false
+				}
+				par := h.Params[argIx]
+				tab := map[int64]int64{}
+				for _, as := range resultAssignments(h, 0) {
+					k, isc := constOf(as.Val)
+					if !isc {
+						return nil, "", false
+					}
+					if k == 0 {
+						continue
+					}
+					// the squares under which this value is returned
+					found := false
+					conds := controllingConds(as.Block)
+					for _, ce := range conds {
+						bo, ok := ce.Cond.(*ssa.BinOp)
+						if !ok || bo.Op != token.EQL || !ce.True {
+							continue
+						}
+						if stripConv(bo.X) == ssa.Value(par) {
+							if s, isc := constOf(bo.Y); isc {
+								tab[s] |= k
+								found = true
+							}
+						}
+					}
+					if !found {
+						return nil, "", false
+					}
+				}
+				return tab, acc, true
+			}
+		}
+		return nil, "", false
+	}
+	lostFrom, lostTo := map[string]map[int64]bool{}, map[string]map[int64]bool{}
+	tableForm := false
+	var tablePos token.Pos
+	allInstrs(fn, func(in ssa.Instruction) {
+		bo, ok := in.(*ssa.BinOp)
+		if !ok || bo.Op != token.OR {
+			return
+		}
+		for _, opnd := range []ssa.Value{bo.X, bo.Y} {
+			tab, acc, ok := squareMap(opnd)
+			if !ok {
+				continue
+			}
+			tableForm, tablePos = true, bo.Pos()
+			for sq, mask := range tab {
+				for bit, name := range rights {
+					if mask&bit != 0 {
+						dst := lostFrom
+						if acc == "to" {
+							dst = lostTo
+						}
+						if dst[name] == nil {
+							dst[name] = map[int64]bool{}
+						}
+						dst[name][sq] = true
+					}
+				}
+			}
+		}
+	})
+	if tableForm {
+		for _, name := range []string{"ShortWhite", "LongWhite", "ShortBlack", "LongBlack"} {
+			if seen[name] {
+				continue
+			}
+			seen[name] = true
+			key := "corner:" + name
+			f, t := lostFrom[name], lostTo[name]
+			one := func(m map[int64]bool) (int64, bool) {
+				if len(m) != 1 {
+					return 0, false
+				}
+				for s := range m {
+					return s, true
+				}
+				return 0, false
+			}
+			fs, okF := one(f)
+			ts, okT := one(t)
+			switch {
+			case len(f) == 0 && len(t) == 0:
+				c.Fail(rule, key, tablePos, "NewCastles never clears %s", name)
+			case !okF:
+				c.Fail(rule, key+"#from", tablePos, "%s is lost for a move FROM %d squares (expected exactly its rook's home square)", name, len(f))
+			case !okT:
+				c.Fail(rule, key+"#to", tablePos, "%s is lost when a piece moves FROM %s but for a move TO %d squares: a capture on the rook's home square must clear it too", name, sqName(fs), len(t))
+			case fs != ts:
+				c.Fail(rule, key+"#same-square", tablePos, "%s is lost for From()==%s but To()==%s", name, sqName(fs), sqName(ts))
+			case expect(fs) != name:
+				c.Fail(rule, key+"#geometry", tablePos, "square %s loses %s, geometry dictates %s", sqName(fs), name, expect(fs))
+			default:
+				c.Ok(rule, key, tablePos, "%s lost iff From()==%s or To()==%s (read from the square table/helper)", name, sqName(fs), sqName(fs))
+			}
+		}
+	}
 	for _, n := range []string{"ShortWhite", "LongWhite", "ShortBlack", "LongBlack"} {
 		if !seen[n] {
 			c.Fail(rule, "corner:"+n, fn.Pos(), "NewCastles never clears %s", n)
@@ -655,7 +793,7 @@ func c02R4(c *Ctx, p *Prog) {
 		c.Fail(rule, "MakeMove#place-mover#present", fn.Pos(), "no placement of the moved/promoted piece on To() found")
 	}
 	// castling rook relocations
-	ops := rookOps(fn, rook)
+	ops := rookOps(p, fn, rook)
 	type km struct{ from, to int64 }
 	byMove := map[km][]rookOp{}
 	for _, o := range ops {
@@ -1134,23 +1272,68 @@ func c02R8(c *Ctx, p *Prog) {
 		return
 	}
 	calls := callsIn(fn, "uci.(*Driver).applyMoves")
-	for i, ci := range calls {
-		fresh := false
-		for _, st := range fieldStores(fn, "Driver.board") {
-			if !instrDominates(st, ci.(ssa.Instruction)) {
-				continue
-			}
-			v := stripConv(st.Val)
-			if isCallValueTo(v, "board.StartPos") {
-				fresh = true
-			}
-			if ex, ok := v.(*ssa.Extract); ok && isCallValueTo(ex.Tuple, "board.FromFEN") {
-				fresh = true
-			}
+	// a board created by this command: StartPos(), the result of FromFEN, or a helper returning only such boards (or nil)
+	var freshBoard func(v ssa.Value, depth int) bool
+	freshBoard = func(v ssa.Value, depth int) bool {
+		v = stripConv(v)
+		if depth > 6 {
+			return false
 		}
-		c.Check(fresh, rule, fmt.Sprintf("handlePosition#applyMoves@%d", i+1), ci.Pos(), "the move list is applied to a board installed by this very command (StartPos() or the accepted FEN) on every path: the resulting position does not depend on earlier commands")
+		switch x := v.(type) {
+		case *ssa.Phi:
+			for _, e := range x.Edges {
+				if !freshBoard(e, depth+1) {
+					return false
+				}
+			}
+			return true
+		case *ssa.Const:
+			return x.Value == nil // nil board: not a stale one
+		case *ssa.Extract:
+			return freshBoard(x.Tuple, depth+1)
+		case *ssa.Call:
+			switch objName(calleeObj(x)) {
+			case "board.StartPos", "board.FromFEN":
+				return true
+			}
+			h := x.Call.StaticCallee()
+			if h == nil || !isOwn(h) || h.Blocks == nil {
+				return false
+			}
+			// which result? the first *Board-typed one
+			for i := 0; i < h.Signature.Results().Len(); i++ {
+				if !isBoardValue(derefType(h.Signature.Results().At(i).Type())) {
+					continue
+				}
+				for _, as := range resultAssignments(h, i) {
+					if !freshBoard(as.Val, depth+1) {
+						return false
+					}
+				}
+				return true
+			}
+			return false
+		}
+		return false
 	}
-	c.Floor(rule, len(calls), 2, "applyMoves calls in handlePosition")
+	var freshStores []ssa.Instruction
+	for _, st := range fieldStores(fn, "Driver.board") {
+		if freshBoard(st.Val, 0) {
+			freshStores = append(freshStores, st)
+		}
+	}
+	for i, ci := range calls {
+		stale, _ := reachAvoidingTo(fn.Blocks[0].Instrs[0], ci.(ssa.Instruction), func(x ssa.Instruction) bool {
+			for _, st := range freshStores {
+				if x == st {
+					return true
+				}
+			}
+			return false
+		})
+		c.Check(!stale, rule, fmt.Sprintf("handlePosition#applyMoves@%d", i+1), ci.Pos(), "the move list is applied to a board installed by this very command (StartPos() or the accepted FEN) on every path: the resulting position does not depend on earlier commands")
+	}
+	c.Floor(rule, len(calls), 1, "applyMoves calls in handlePosition")
 	// and applyMoves has no other caller
 	for _, f := range p.OwnFuncs() {
 		if f != fn && len(callsIn(f, "uci.(*Driver).applyMoves")) > 0 {
@@ -1227,4 +1410,11 @@ func isFromToElem(v ssa.Value) bool {
 		}
 	}
 	return from == 1 && to == 1 && other == 0
+}
+
+func derefType(t types.Type) types.Type {
+	if p, ok := t.Underlying().(*types.Pointer); ok {
+		return p.Elem()
+	}
+	return t
 }
